@@ -138,3 +138,42 @@ Proof.
     + subst w1. cbn [set_consumed w_consumed w_cfg rev app]. reflexivity.
     + subst w1. apply within_set. cbn [set_consumed w_consumed w_cfg]. exact Hw.
 Qed.
+
+(* ---------- traced iteration (tracekv.traceIterator) ---------- *)
+(* Key() logs an iterKey line, Value() an iterValue line, Next/Valid nothing: a complete loop over a traced
+   iterator returns exactly the items and appends, per item and in order, one iterKey and one iterValue line;
+   gas and limit are untouched *)
+Definition trace_lines (l : list (bytes * bytes)) : list tline :=
+  flat_map (fun kv => [(3, fst kv, []); (4, [], snd kv)]) l.
+Theorem trace_iteration_exact l : forall w acc,
+  exists w', it_collect (S (length l)) (ITrace (IList l)) w acc = (Ok (rev acc ++ l), w') /\
+             w_trace w' = rev (trace_lines l) ++ w_trace w /\
+             w_consumed w' = w_consumed w /\ w_limit w' = w_limit w /\ w_cfg w' = w_cfg w.
+Proof.
+  induction l as [|[k v] r IH]; intros w acc.
+  - exists w. cbn. rewrite app_nil_r. repeat split; reflexivity.
+  - cbn [length].
+    assert (E : forall f, it_collect (S f) (ITrace (IList ((k, v) :: r))) w acc =
+                          it_collect f (ITrace (IList r)) (log (log w (3, k, [])) (4, [], v)) ((k, v) :: acc)).
+    { intros f. cbn [it_collect it_valid it_key it_value it_next bind]. reflexivity. }
+    rewrite E.
+    destruct (IH (log (log w (3, k, [])) (4, [], v)) ((k, v) :: acc)) as [w' [H1 [H2 [H3 [H4 H5]]]]].
+    exists w'. split; [|split; [|split; [|split]]].
+    + rewrite H1. cbn [rev]. rewrite <- app_assoc. reflexivity.
+    + rewrite H2. cbn [trace_lines flat_map log w_trace fst snd app rev].
+      fold (trace_lines r). rewrite <- !app_assoc. reflexivity.
+    + rewrite H3. reflexivity.
+    + rewrite H4. reflexivity.
+    + rewrite H5. reflexivity.
+Qed.
+Theorem trace_store_iteration_exact m st en asc w :
+  let l := kv_range m st en asc in
+  exists w', s_iter_all (Trace (Base m)) st en asc w = (Ok l, Trace (Base m), w') /\
+             w_trace w' = rev (trace_lines l) ++ w_trace w /\
+             w_consumed w' = w_consumed w /\ w_limit w' = w_limit w /\ w_cfg w' = w_cfg w.
+Proof.
+  intros l. unfold s_iter_all. cbn [s_iter]. fold l.
+  change (it_size (ITrace (IList l))) with (length l).
+  destruct (trace_iteration_exact l w []) as [w' [H1 H2]].
+  exists w'. rewrite H1. cbn [rev app]. split; [reflexivity|exact H2].
+Qed.
